@@ -20,7 +20,7 @@ func init() {
 
 func menu(w *chain.World) []chain.Action {
 	return []chain.Action{
-		chain.V1Pay(true, 2), chain.V1Chain(), chain.V1SF(true), chain.V1Form(1, 2, 100), chain.V1Form(0, 2, 10), chain.V1FormNoSig(1, 2, 10), chain.V1Revise("pay"), chain.V1Proof(false),
+		chain.V1Pay(true, 2), chain.V1Chain(), chain.V1SF(true), chain.V1SFChain(), chain.V1Form(1, 2, 100), chain.V1Form(0, 2, 10), chain.V1FormNoSig(1, 2, 10), chain.V1Revise("pay"), chain.V1Proof(false), chain.V1Proof(true),
 		chain.V2Pay(chain.AddrV2, true, 2), chain.V2Pay(chain.AddrV1, false, 1), chain.V2Chain(chain.AddrV2), chain.V2SF(true), chain.V2Form(1, 2, 100), chain.V2Form(0, 1, 10), chain.V2Form(0, 1, 0),
 		chain.V2Revise("pay"), chain.V2Renew("partial"), chain.V2Proof(), chain.V2Expire(),
 	}
